@@ -10,9 +10,11 @@ RULE = ("one record = MatchString, MatchRunes, FindStringMatch, FindRunesMatch, 
         "profile 'balancing': a group popped by (?<x-n>..) in every pattern, direction-aware; the recorded rune searches only for explicitly numbered sparse groups), string results = rune results. non-trivial = records whose chain has >= 2 matches")
 STREAM = 100
 QUICK = [("frag", ["-n", "500", "-rtl", "both"]), ("wide", ["-n", "800", "-profile", "wide", "-rtl", "both"]),
-         ("bal", ["-n", "300", "-profile", "balancing", "-rtl", "both"])]
+         ("bal", ["-n", "300", "-profile", "balancing", "-rtl", "both"]),
+         ("sparse", ["-n", "300", "-profile", "sparse", "-rtl", "both"])]
 THOROUGH = [("frag%d" % i, ["-n", "1500", "-rtl", "both"]) for i in range(3)] + [("wide%d" % i, ["-n", "2500", "-profile", "wide", "-rtl", "both", "-maxlen", "14"]) for i in range(5)] + \
-           [("bal%d" % i, ["-n", "1500", "-profile", "balancing", "-rtl", "both"]) for i in range(2)]
+           [("bal%d" % i, ["-n", "1500", "-profile", "balancing", "-rtl", "both"]) for i in range(2)] + \
+           [("sparse%d" % i, ["-n", "1500", "-profile", "sparse", "-rtl", "both"]) for i in range(2)]
 PROP = "C02"
 
 
